@@ -179,8 +179,8 @@ def judge(hid, line, lifetimes, h, mline, synth_val, project="full"):
         if r.diff is not None:
             slots = [(h["addr"][t], h["addr"][t] + 16) for t in named]
             for (a, b) in r.diff:
-                if r.tag == "EXIT" or not any(s <= a and b <= e for s, e in slots):
-                    J["c03"].append(dict(case=case, what=f"executable memory differs at {a:x}-{b:x} at L{r.l} {r.tag}" + (" (after scope exit)" if r.tag == "EXIT" else " outside the named entry slots"), named=sorted(named)))
+                if not any(s <= a and b <= e for s, e in slots):
+                    J["c03"].append(dict(case=case, what=f"executable memory differs at {a:x}-{b:x} at L{r.l} {r.tag} outside the entry slots of the functions named in this lifetime", named=sorted(named)))
         # C02
         if r.tag == "EXIT" and r.res.startswith("panic:nomem"):
             for t in targets:
@@ -291,7 +291,9 @@ def check_histories(res, prop_key, n, seed, project, max_lifetimes=3, extra_line
     for hid, (line, lts, sv) in meta.items():
         J = judge(hid, line, lts, H[hid], M.get(hid, ""), sv, project)
         shapes.add(J["shape"]); crashed += J["crashed"]
-        corr += J["corr"]
+        # a history whose child died is judged by the monitors on what was observed before; the (necessarily truncated)
+        # comparison with the model counts only for the properties that own crashes
+        if not (J["crashed"] and prop_key in ("c03", "c12", "c17", "c06", "c11")): corr += J["corr"]
         for v in J[prop_key]:
             res.violation(v["what"], v["case"], {k: x for k, x in v.items() if k not in ("what", "case")})
     res.cov["evaluations"] += len(cases)
